@@ -2,6 +2,7 @@ package main
 
 import (
 	"bytes"
+	"encoding/binary"
 	"errors"
 	"fmt"
 	"io"
@@ -32,6 +33,29 @@ func (w wcfg) opts() []lz4.Option {
 		lz4.BlockSizeOption(w.bs), lz4.BlockChecksumOption(w.bc), lz4.ChecksumOption(w.cc), lz4.SizeOption(w.size),
 		lz4.CompressionLevelOption(w.level), lz4.ConcurrencyOption(w.conc), lz4.LegacyOption(w.legacy),
 	}
+}
+
+// hcZeroSize returns a content size for which the frame descriptor's header checksum byte
+// is 0x00 with the given flags (about one descriptor in 256 has that byte; code that takes a
+// zero checksum byte for "header not written yet" or "no checksum" needs exactly this).
+func hcZeroSize(bs lz4.BlockSize, bc, cc bool) uint64 {
+	bd := map[lz4.BlockSize]byte{lz4.Block64Kb: 0x40, lz4.Block256Kb: 0x50, lz4.Block1Mb: 0x60, lz4.Block4Mb: 0x70}[bs]
+	flg := byte(0x40 | 0x20 | 0x08)
+	if bc {
+		flg |= 0x10
+	}
+	if cc {
+		flg |= 0x04
+	}
+	var d [10]byte
+	d[0], d[1] = flg, bd
+	for n := uint64(1); n < 100000; n++ {
+		binary.LittleEndian.PutUint64(d[2:], n)
+		if ref.HeaderChecksum(d[:]) == 0 {
+			return n
+		}
+	}
+	return 1
 }
 
 func (w wcfg) blockMax() int {
